@@ -145,7 +145,7 @@ def chunk_dtype_fixed_point(ctx, R="R-C03-dtype-out"):
         if widening and not S.has_unknown(stored):
             ctx.bad(R, pre, pre.node, "the utterance's dtype is remembered as %s, not as the first chunk's own dtype: for a signal of another precision (float16, or an "
                     "integer type) the result is not returned in the signal's dtype, and a second chunk of the same signal fails the comparison with the "
-                    "remembered dtype although nothing changed" % S.show(stored)[:80], what)
+                    "remembered dtype although nothing changed" % S.show(stored)[:80], what, robust=True)
         else:
             ctx.error(R, "cannot decide which dtype is remembered for the utterance: %s" % S.show(stored)[:100])
 
@@ -205,7 +205,7 @@ def full_keeps_dtype(ctx, R="R-C03-dtype-out"):
                     ctx.ok(R, g.loc(rn), "compute_full feeds compute_chunk an array of the signal's own dtype")
                 elif k == "f64":
                     ctx.bad(R, g, rn, "compute_full hands compute_chunk %s: a float32 / float16 signal is promoted to float64 before the first chunk fixes the "
-                            "result dtype, so the result is float64" % S.show(x.args[2])[:120], "compute_full feeds compute_chunk an array of the signal's own dtype")
+                            "result dtype, so the result is float64" % S.show(x.args[2])[:120], "compute_full feeds compute_chunk an array of the signal's own dtype", robust=True)
                 else:
                     ctx.error(R, "cannot decide the dtype of what compute_full hands to compute_chunk: %s" % S.show(x.args[2])[:140])
     if not seen:
